@@ -608,7 +608,7 @@ fn check_vm(obs: &mut Obs, prefix: &str, src: &str) -> bool {
             if st.hex_reductions + st.reductions_in_name + st.reductions_main > 0 {
                 obs.skip("vm-text-spells-a-reserved-command-through-caret-notation");
             } else {
-                obs.inconclusive(format!("vm program not interpretable by the harness: {why}"));
+                obs.inconclusive(format!("vm program not interpretable by the harness: {why}; source {:?}", src));
             }
             return true;
         }
@@ -642,12 +642,12 @@ fn check_vm(obs: &mut Obs, prefix: &str, src: &str) -> bool {
             (Some(e), Some(err)) => {
                 let one = match &err.invalid {
                     Some(i) => vec![i.clone()],
-                    None => return Some(("vm-error-is-not-the-invalid-character-error".into(), 0)),
+                    None => return Some(("error-is-not-the-invalid-character-error".into(), 0)),
                 };
-                diff(&one, std::slice::from_ref(e)).map(|(s, _)| (format!("vm-{s}"), w.recorded.len()))
+                diff(&one, std::slice::from_ref(e)).map(|(s, _)| (format!("invalid-character-error-{s}"), w.recorded.len()))
             }
-            (None, Some(_)) => Some(("vm-unexpected-error".into(), w.recorded.len())),
-            (Some(_), None) => Some(("vm-invalid-character-not-reported".into(), w.recorded.len())),
+            (None, Some(_)) => Some(("unexpected-error".into(), w.recorded.len())),
+            (Some(_), None) => Some(("invalid-character-not-reported".into(), w.recorded.len())),
         }
     };
     match judge(&want) {
